@@ -102,8 +102,8 @@ func TestVerifC21(t *testing.T) {
 func TestVerifC22Supply(t *testing.T) {
 	cmonRun(t, cmonSpec{prop: "C22", part: "supply", profile: "assets", stream: 22,
 		owned:   map[string]bool{"asset-supply": true},
-		rule:    "HL histories weighted toward the asset lifecycle (create incl. total 2^64-1 and default-frozen, opt-in, transfer of 0/1/all/all+1, clawback, freeze, close-out incl. to creator, reconfigure, destroy); after every block, for every asset it touched that is still live, the sum of all holdings must equal the asset's Total; distinct = distinct multisets of transaction kinds per block",
-		require: map[string]int64{"audit.asset_supply_checked": 100, "gen.accepted:aclose": 2, "gen.accepted:aclawback": 2}})
+		rule:    "HL histories weighted toward the asset lifecycle (create incl. total 2^64-1 and default-frozen, opt-in, transfer of 0/1/all/all+1, clawback, freeze, close-out incl. to creator, reconfigure, destroy, and atomic groups in which a holder closes out and a later member of the same group spends from / receives into / claws back from / re-closes / re-opts-in that holding); after every block, for every asset it touched that is still live, the sum of all holdings must equal the asset's Total; distinct = distinct multisets of transaction kinds per block",
+		require: map[string]int64{"audit.asset_supply_checked": 100, "gen.accepted:aclose": 2, "gen.accepted:aclawback": 2, "gen.rejected:aclosegroup": 3, "gen.accepted:aclosegroup": 1}})
 }
 
 func TestVerifC23(t *testing.T) {
